@@ -226,7 +226,13 @@ def k_plain_num(desc, F, s):
     lexical space of the datatype: the shorthand token must be re-typed by the Turtle grammar as the same datatype"""
     from rdflib import term
     dt = desc["dt"]
-    if not _match_xsd(dt, s):
+    if desc.get("any_text"):
+        # rdflib uses the shorthand whenever "a value could be determined" (e.g. int("12\n") is 12): whatever the lexical form
+        # is, a bare token must be a Turtle token of that datatype. Decimal forms with an exponent are excluded (the
+        # repository's test_issue1043 asserts that they are written bare).
+        if dt == "boolean" or "e" in s or "E" in s or len(s) == 0:
+            return None
+    elif not _match_xsd(dt, s):
         return None
 
     class Stub:
@@ -433,7 +439,33 @@ def k_rdfxml_lang(desc, F, l0, l1, l2):
     return None
 
 
-BODIES = {"k-rdfxml-lang": k_rdfxml_lang, "k-ttl-roundtrip-long": k_ttl_roundtrip_long, "k-plain-num": k_plain_num, "k-nt-writer": k_nt_writer, "k-nt-quoteliteral": k_nt_quoteliteral, "k-ttl-roundtrip": k_ttl_roundtrip,
+def k_iri_join(desc, F, s1, s2, f, name):
+    """notation3.join (relative IRI resolution used for @base / BASE): base http://h/<s1>/<s2>/<f> (segments by shape), reference
+    k times '../' followed by a name (and optionally './' or a fragment); expected per RFC 3986 section 5.2: every '../' removes
+    one directory level, never above the root"""
+    from rdflib.plugins.parsers.notation3 import join
+    for t in (s1, s2, name):
+        if len(t) == 0:
+            return None
+    for t in (s1, s2, f, name):
+        for ch in t:
+            if ch not in "ab":
+                return None
+    dirs = [s1, s2][: desc["depth"]]
+    here = "http://h/" + "".join(d + "/" for d in dirs) + f
+    there = ("./" if desc.get("dot") else "") + "../" * desc["ups"] + name + ("#x" if desc.get("frag") else "")
+    keep = dirs[: max(0, len(dirs) - desc["ups"])]
+    want = "http://h/" + "".join(d + "/" for d in keep) + name + ("#x" if desc.get("frag") else "")
+    try:
+        got = join(here, there)
+    except Exception as e:
+        return "relative IRI resolution raises %s" % type(e).__name__
+    if got != want:
+        return "relative IRI with %d '../' against a base %d levels deep resolves to the wrong IRI" % (desc["ups"], desc["depth"])
+    return None
+
+
+BODIES = {"k-iri-join": k_iri_join, "k-rdfxml-lang": k_rdfxml_lang, "k-ttl-roundtrip-long": k_ttl_roundtrip_long, "k-plain-num": k_plain_num, "k-nt-writer": k_nt_writer, "k-nt-quoteliteral": k_nt_quoteliteral, "k-ttl-roundtrip": k_ttl_roundtrip,
           "k-ttl-reader": k_ttl_reader, "k-nt-reader": k_nt_reader, "k-xml-text": k_xml_text}
 
 ESCAPES = ["", "\\n", "\\t", "\\\"", "\\'", "\\\\", "\\r", "\\b", "\\f", "\\u0041", "\\u00e9", "\\U0001F600", "\\u005C", "\\u0022"]
